@@ -26,6 +26,29 @@ class Engine(BaseEngine):
                    "LMDB's reader table and NO_TLS behaviour", "schedules stay below one file-growth step (the remap hazard is C15's known finding)"]
     weights = {"new": 5, "addr": 3}
 
+    def make_growth_case(self, rng):
+        """two writers that both have to grow the event map (one of them ephemeral: not indexed), every
+        interleaving of their growth steps; the final dump re-reads every indexed event"""
+        sub = random.Random(rng.getrandbits(64))
+        g = HistGen(sub, {"new": 1}, sub.choice([1, 2, 4])).run()
+        for op in g.ops:
+            op[1]["kind"] = 1
+            op[1]["content"] = b"s" * sub.choice([200, 900, 1500])
+        setup = [g.render_op(op) for op in g.ops]
+        big = []
+        for kind, n in ((sub.choice([20000, 29999, 1]), sub.choice([2100, 1800])), (1, sub.choice([4300, 6500, 2100])), (1, 2500)):
+            e = g.new_event(kind=kind, tags=[])
+            e["content"] = b"G" * n
+            big.append(e)
+        ff = {"ids": [big[1]["id"], big[2]["id"]] + [op[1]["id"] for op in g.ops][:2], "authors": [], "kinds": [], "tags": [], "since": None, "until": None, "limit": None}
+        q = "query %s L0 n:1 n:0 n:0 %s" % (C.t_filter(ff), C.tn(g.now))
+        progs = [["store " + C.t_event(big[0])], ["store " + C.t_event(big[1]), "store " + C.t_event(big[2])], [q, q, q, q]]
+        obs = "obs %s %s" % (C.tl(C.tb(i) for i in g.ids), C.tl("%s %s %s" % (C.tn(k), C.tb(a), C.tb(d)) for k, a, d in g.addrs))
+        names = C.tl(C.tb(n) for n in g.names)
+        line = "conc %s %s %s ; S %s%s ; F ; %s" % (names, C.tn(sub.getrandbits(40)), C.tn(sub.choice([300, 600, 800])), "".join(" ; " + o for o in setup),
+                                                   "".join(" ; T" + "".join(" ; " + o for o in p) for p in progs), obs)
+        return ("growth-race", line), {"setup": setup, "progs": progs, "obs": obs, "names": names, "shared": big[1]}
+
     def make_case(self, rng, free=False):
         sub = random.Random(rng.getrandbits(64))
         g = HistGen(sub, self.weights, sub.choice([0, 2, 4])).run()
@@ -84,7 +107,8 @@ class Engine(BaseEngine):
         nfree = 20 if tier == "quick" else 400
         failures, dist, samples, seen = [], {}, [], set()
         try:
-            cases = [self.make_case(rng) for _ in range(n)] + [self.make_case(rng, free=True) for _ in range(nfree)]
+            cases = ([self.make_case(rng) for _ in range(n)] + [self.make_growth_case(rng) for _ in range(n // 4)]
+                     + [self.make_case(rng, free=True) for _ in range(nfree)])
             lines = [c[0][1] for c in cases]
             outs = C.run_lines(C.harness_exe("debug"), lines, env=env, shards=8)
             # sequential replays on the model, in linearization order
@@ -129,6 +153,9 @@ class Engine(BaseEngine):
         trace = [x.split(":", 1) for x in m.group(1).split(",") if x]
         if any(t[1] in ("WATCHDOG", "DEADLOCK") for t in trace):
             return "controller-stuck"
+        if any(t[1] == "UNBLOCKED-WHILE-LOCK-HELD" for t in trace):
+            return "unblocked"
+        trace = [t for t in trace if not t[1].startswith("UNBLOCKED")]
         # per thread: split the trace into ops by op:begin/op:end
         opidx = {}
         pts = []      # (global index, tid, opnum, name)
@@ -146,14 +173,12 @@ class Engine(BaseEngine):
             key = (tid, k)
             op = meta["progs"][tid][k].split(" ", 1)[0]
             if op == "store":
-                if name == "store:before-commit":
-                    lin[key] = gi
-                elif name == "store:before-txn" and key not in lin:
+                # these occur in this order within one store: the last one present wins (a store that
+                # fails before committing reads the state right after acquiring the lock)
+                if name in ("store:before-txn", "store:txn", "store:before-commit"):
                     lin[key] = gi
             elif op == "remove":
-                if name == "remove:before-commit":
-                    lin[key] = gi
-                elif name == "remove:before-txn" and key not in lin:
+                if name in ("remove:before-txn", "remove:txn", "remove:before-commit"):
                     lin[key] = gi
             else:
                 if name == "op:begin":
@@ -187,6 +212,9 @@ class Engine(BaseEngine):
             return Verdict(oracle_ok=False, cls="indexes-inconsistent", detail="id/ci/ac/akc counts differ after the concurrent run: %s" % fo.group(0), outcome="counts")
         if gcls == "free":
             return Verdict(outcome="free-ok", nontrivial=True)
+        if lin == "unblocked":
+            return Verdict(oracle_ok=False, cls="writer-not-serialized",
+                           detail="a store/remove entered its write path while another thread held the write transaction (it did not block)", outcome="unblocked")
         if isinstance(lin, str) or lin is None:
             return Verdict(corr_ok=False, cls="schedule-controller", detail="controller: %s" % lin, outcome=str(lin))
         if not mo.startswith("dbhist "):
